@@ -661,3 +661,79 @@ def canon_union(v):
         L = norm(v[2][0][2][0])
         return L, norm(_app(v[2][0][2][1], ("at", L)))
     return None
+
+
+def set_norm(t):
+    """sound identities of set / collection calls, so that one meaning has one spelling: `a.difference(b).next().is_some()` is `!a.is_subset(b)`,
+    `append` fills a collection like `extend`"""
+    if not isinstance(t, tuple):
+        return t
+    t = tuple(set_norm(x) for x in t)
+    if t[:2] == ("call", "Option::is_some") and len(t[2]) == 1:
+        n = t[2][0]
+        if isinstance(n, tuple) and n[:2] == ("call", "Iterator::next") and len(n[2]) == 1 and isinstance(n[2][0], tuple) and n[2][0][:1] == ("call",) \
+                and n[2][0][1].endswith("::difference") and len(n[2][0][2]) == 2:
+            return ("op", "Not", ("call", "IndexSet::is_subset", n[2][0][2]))
+    if t[:2] == ("call", "Option::is_none") and len(t[2]) == 1:
+        inner = set_norm(("call", "Option::is_some", t[2]))
+        if inner[:2] == ("op", "Not"):
+            return inner[2]
+    if t[:1] == ("upd",) and len(t) == 4 and t[2] == "append":
+        return ("upd", t[1], "extend", t[3])
+    if t[:1] == ("call",) and t[1].endswith("::is_subset") and t[1] != "IndexSet::is_subset":
+        return ("call", "IndexSet::is_subset", t[2])
+    return t
+
+
+def canon_first(v):
+    """`the first element x of L with T(x) makes the function return A(x), otherwise it returns B` in one form, from
+    `for x in L { if T(x) { return A(x) } } B` and from `match L.iter().filter(..).map(..).find(|x| T(x)) { Some(x) => A(x), None => B }`.
+    Result: ('first', nest, frozenset(facts over ('at', ..)), A, B) or None when v has neither shape."""
+    v = set_norm(v)
+
+    def finish(nest, tests, A, B, elem_map):
+        A = norm(strip_acc(replace(A, elem_map)))
+        tests2 = set()
+        for t in tests:
+            tests2.add(norm(strip_acc(replace(t, elem_map))))
+        ats = {}
+        for n in nest:
+            ats[("each", n)] = ("at", norm(n))
+            ats[("each", norm(n))] = ("at", norm(n))
+        nn = []
+        for n in nest:
+            if norm(n) not in nn:
+                nn.append(norm(n))
+        return ("first", tuple(nn), frozenset(replace(t, ats) for t in tests2), replace(A, ats), norm(strip_acc(B)))
+    if isinstance(v, tuple) and v[:1] == ("returns",) and len(v[1]) == 2 and v[1][1][0] == ("fallthrough",):
+        conds, A = v[1][0]
+        B = v[1][1][1]
+        tests = []
+        for c, pol in conds:
+            r = cond_tests(c, pol)
+            if r is False:
+                return None
+            tests += r
+        eachs = sorted({x for t in list(tests) + [A] for x in sym.subterms(t) if isinstance(x, tuple) and len(x) == 2 and x[0] == "each"}, key=repr)
+        # innermost iterables only (an `each` inside another iterable belongs to the outer loop)
+        nest = [e[1] for e in eachs]
+        nest2, mapping, flt = loop_nest_filtered(nest)
+        for c, pol in flt:
+            tests += cond_tests(c, pol) or []
+        return finish(nest2, tests, A, B, mapping)
+    if isinstance(v, tuple) and v[:1] == ("match",) and len(v) == 3 and isinstance(v[1], tuple) and v[1][:2] == ("call", "Iterator::find") and len(v[1][2]) == 2:
+        it, f = v[1][2]
+        arms = {parse_pat(a[0])[1] if parse_pat(a[0])[0] == "ctor" else a[0]: a[-1] for a in v[2] if len(a) == 2}
+        if set(arms) != {"Option::Some", "Option::None"}:
+            return None
+        nest, mapping, flt = loop_nest_filtered([it])
+        elem = mapping[("each", it)]
+        tests = []
+        for c, pol in flt + [(_apply(f, elem), True)]:
+            r = cond_tests(norm(c), pol)
+            if r is False:
+                return None
+            tests += r
+        found = ("proj", v[1], (("Option::Some", "0"),))
+        return finish(nest, tests, arms["Option::Some"], arms["Option::None"], {found: elem})
+    return None
